@@ -18,7 +18,7 @@ from ..core import AnalysisError, Func, Repo, dotted, norm, parents
 from ..cfg import CFG
 from ..owners import Write, writers
 from ..report import Check
-from ..util import call_name, calls_in
+from ..util import not_none_fact, call_name, calls_in
 
 DOC = 'pydoctor.model.Documentable'
 SYS = 'pydoctor.model.System'
@@ -81,18 +81,27 @@ def run(repo: Repo, chk: Check, thorough: bool = False) -> None:
         distinctive = fld in ('allobjects', 'rootobjects', 'unprocessed_modules', 'subclasses')
         ws = writers(repo, fld, bases, unknown_counts=distinctive, skip_modules=('pydoctor.sphinx_ext',))
         seen_allowed: Set[str] = set()
+        owner_classes = {b for b in bases} | {a.rsplit('.', 1)[0] for a in allowed}
         for w in ws:
             q = w.func.qn
             ok = q in allowed
+            why_ok = allowed.get(q, '')
+            if not ok:
+                # a private helper of an owning class / function (an extracted method, a nested function) is part of the owner's implementation
+                top = w.func
+                while top.outer is not None:
+                    top = top.outer
+                inside_owner = (top.qn in allowed) or (top.cls is not None and top.cls.qn in owner_classes and top.name.startswith('_') and not top.name.startswith('__'))
+                if inside_owner and w.func.mod.name == M:
+                    ok, why_ok = True, f'private helper of the owning class ({top.qn.rsplit(".", 1)[0]})'
             if ok:
                 seen_allowed.add(q)
             chk.ob('R02.1', f'{q} :: {fld} ({w.kind})', ok,
-                   allowed.get(q, '') if ok else
+                   why_ok if ok else
                    f'`{norm(w.node)[:60]}` writes {fld} outside its owners ({", ".join(sorted(a.split(".")[-1] for a in allowed))}): '
                    'the registry and the tree can diverge', w.loc)
-        for q in allowed:
-            if q not in repo.funcs:
-                chk.error(f'R02.1: owner {q} of {fld} no longer exists: re-confirm the owner table')
+        if not seen_allowed:
+            chk.error(f'R02.1: no owner of {fld} writes it any more: re-confirm the owner table')
     chk.require('R02.1', 20)
     # implementedby_directly: appended only under the `not in` test, initialised to [] at the interface-detecting sites
     ws = writers(repo, 'implementedby_directly', [DOC], unknown_counts=True)
@@ -133,7 +142,7 @@ def run(repo: Repo, chk: Check, thorough: bool = False) -> None:
                f'the loop runs over `{norm(inner.iter) if inner is not None else "?"}`, not over the public `baseobjects` relation (the pre-post-processing `_initialbaseobjects` '
                'lacks the bases that are only resolved in post-processing - import cycles): "subclass of" is not the exact inverse of "base of"', repo.loc(dpp.mod, a))
         tests = cfg.dominating_tests(cfg.stmt_of(a))
-        chk.ob('R02.1', f'{M}.defaultPostProcess :: unresolved bases skipped', any(pol and isinstance(t, ast.Compare) and isinstance(t.ops[0], ast.IsNot) for t, pol in tests),
+        chk.ob('R02.1', f'{M}.defaultPostProcess :: unresolved bases skipped', any(not_none_fact(t, pol) for t, pol in tests),
                'guarded by `b is not None`', repo.loc(dpp.mod, a))
         mro_calls = [c for c in calls_in(dpp) if call_name(c) == '_init_mro']
         ok = bool(mro_calls) and cfg.dominates(cfg.stmt_of(mro_calls[0]), cfg.stmt_of(a), no_exc=True) and \
@@ -143,20 +152,30 @@ def run(repo: Repo, chk: Check, thorough: bool = False) -> None:
                'subclasses are computed before _init_mro() resolved the final bases: with an import cycle a subclass is missing from '
                'its base\'s subclasses', repo.loc(dpp.mod, a))
 
+    # the re-keying routines, by ROLE: functions of model.py that index allobjects by `<x>.fullName()` and call themselves for the members
+    def _keys_registry(n: ast.AST) -> bool:
+        if isinstance(n, ast.Subscript) and 'allobjects' in norm(n.value) and 'fullName()' in norm(n.slice):
+            return True
+        return isinstance(n, ast.Call) and call_name(n) == 'pop' and isinstance(n.func, ast.Attribute) and 'allobjects' in norm(n.func.value) and \
+            bool(n.args) and 'fullName()' in norm(n.args[0])
+    rekey = [g for g in repo.funcs.values() if g.mod.name == M and any(_keys_registry(n) for n in g.walk()) and
+             any(isinstance(c, ast.Call) and call_name(c) == g.name for lp in g.walk() if isinstance(lp, ast.For) for st in lp.body for c in ast.walk(st))]
+    REG = {g.name for g in rekey if any(isinstance(n, ast.Subscript) and isinstance(n.ctx, ast.Store) and _keys_registry(n) for n in g.walk())}
+    UNREG = {g.name for g in rekey} - REG
+    if len(rekey) < 4 or not REG or not UNREG:
+        raise AnalysisError(f'R02.3: {len(rekey)} recursive re-keying routines found in model.py (4 confirmed: _remove, the re-adder of handleDuplicate, _handle_reparenting_pre/_post)')
     # ------------------------------------------------------------------ R02.2 unlink pairing
     for f in repo.funcs.values():
         if f.mod.name != M:
             continue
-        removes = [c for c in calls_in(f) if call_name(c) == '_remove' and dotted(c.func) == 'self._remove' and c.args]
+        removes = [c for c in calls_in(f) if call_name(c) in UNREG and isinstance(c.func, ast.Attribute) and dotted(c.func.value) == 'self' and c.args and f.name not in UNREG | REG]
         for c in removes:
             victim = norm(c.args[0])
             cfgf = CFG(f)
             # re-inserted under a new key in the same function?
-            reins = [n for n in f.walk() if isinstance(n, ast.Call) and call_name(n) in ('readd',) and n.args and norm(n.args[0]) == victim]
+            reins = [n for n in f.walk() if isinstance(n, ast.Call) and call_name(n) in REG and n.args and norm(n.args[0]) == victim]
             if reins:
                 chk.ob('R02.2', f'{f.qn} :: _remove({victim}) then re-registered', True, 'the subtree is re-registered under its new name in the same function', repo.loc(f.mod, c))
-                continue
-            if f.name == '_remove':
                 continue
             # otherwise the object must also leave its container (parent.contents or rootobjects) on every path
             unlink = [cfgf.stmt_of(n) for n in f.walk() if
@@ -191,19 +210,18 @@ def run(repo: Repo, chk: Check, thorough: bool = False) -> None:
     chk.require('R02.2', 3)
 
     # ------------------------------------------------------------------ R02.3 subtree completeness
-    for q in (f'{SYS}._remove', f'{SYS}.handleDuplicate.readd', f'{DOC}._handle_reparenting_pre', f'{DOC}._handle_reparenting_post'):
-        f = repo.func(q)
+    for f in sorted(rekey, key=lambda g: g.qn):
+        q = f.qn
         rec = False
         for n in f.walk():
-            if isinstance(n, ast.For) and 'contents' in norm(n.iter) or (isinstance(n, ast.For) and isinstance(n.iter, ast.Name) and
-                                                                        any('contents' in norm(v) for v in _values(f, n.iter.id))):
+            if isinstance(n, ast.For) and any('contents' in norm(v) for v in _iter_exprs(repo, f, n.iter)):
                 if any(isinstance(c, ast.Call) and call_name(c) == f.name for st in n.body for c in ast.walk(st)):
                     rec = True
         chk.ob('R02.3', f'{q} :: recurses over the whole subtree', rec,
                'for each member of contents: recursive call' if rec else
                f'{f.name} no longer recurses over contents: members below the first level keep stale registry keys', f.loc)
         # the registry operation itself is keyed by the object's current full name
-        keyed = any(isinstance(n, (ast.Subscript,)) and 'allobjects' in norm(n.value) and 'fullName()' in norm(n.slice) for n in f.walk())
+        keyed = any(_keys_registry(n) for n in f.walk())
         chk.ob('R02.3', f'{q} :: keyed by fullName()', keyed, 'allobjects[<obj>.fullName()]' if keyed else 'registry key is not the current qualified name', f.loc)
     hd = repo.func(f'{SYS}.handleDuplicate')
     cfgh = CFG(hd)
@@ -219,8 +237,8 @@ def run(repo: Repo, chk: Check, thorough: bool = False) -> None:
                'the numbered name is not searched with a loop: with three or more definitions of one name two superseded objects '
                'get the same key and one overwrites the other in the registry', repo.loc(hd.mod, n))
         # order: subtree unregistered before the rename, re-registered after
-        rem = [c for c in calls_in(hd) if call_name(c) == '_remove']
-        readd = [c for c in calls_in(hd) if call_name(c) == 'readd']
+        rem = [c for c in calls_in(hd) if call_name(c) in UNREG]
+        readd = [c for c in calls_in(hd) if call_name(c) in REG]
         ok = bool(rem) and bool(readd) and cfgh.before(rem[0], n) and cfgh.before(n, readd[0])
         chk.ob('R02.3', f'{SYS}.handleDuplicate :: unregister -> rename -> re-register', ok,
                '_remove(prev) precedes the rename, readd(prev) follows it' if ok else
@@ -231,7 +249,7 @@ def run(repo: Repo, chk: Check, thorough: bool = False) -> None:
            'self.allobjects[fullName] = obj' if fin else 'the new object is not registered under the contested name', hd.loc)
     # a superseded definition stays registered but is no member of its parent's contents: the re-keying routines (which all walk
     # `contents`) only reach it if its parent keeps it in a collection of its own and every one of them walks that collection too
-    prevs = {norm(c.args[0]) for c in calls_in(hd) if call_name(c) == 'readd' and c.args}
+    prevs = {norm(c.args[0]) for c in calls_in(hd) if call_name(c) in REG and c.args}
     keep = [c for c in calls_in(hd) if call_name(c) in ('append', 'add') and c.args and norm(c.args[0]) in prevs and
             isinstance(c.func, ast.Attribute) and isinstance(c.func.value, ast.Attribute)]
     coll = keep[0].func.value.attr if keep else None   # type: ignore[attr-defined]
@@ -240,13 +258,13 @@ def run(repo: Repo, chk: Check, thorough: bool = False) -> None:
            'the superseded object is registered under `name N` but recorded nowhere on its parent: when the parent is moved (re-export) or removed, '
            'its registry key is not updated - it stays registered under a qualified name it no longer has', hd.loc)
     if coll:
-        for q in (f'{SYS}._remove', f'{SYS}.handleDuplicate.readd', f'{DOC}._handle_reparenting_pre', f'{DOC}._handle_reparenting_post'):
-            f = repo.func(q)
+        for f in sorted(rekey, key=lambda g: g.qn):
+            q = f.qn
             # ... by RECURSION: the loop(s) that hold the recursive call iterate that collection too (a superseded class has members of its own)
             walks = False
             for n in f.walk():
                 if isinstance(n, ast.For) and any(isinstance(c, ast.Call) and call_name(c) == f.name for st in n.body for c in ast.walk(st)):
-                    its = [n.iter] + ([v for v in _values(f, n.iter.id)] if isinstance(n.iter, ast.Name) else [])
+                    its = _iter_exprs(repo, f, n.iter)
                     if any(isinstance(x, ast.Attribute) and x.attr == coll for it_ in its for x in ast.walk(it_)):
                         walks = True
             chk.ob('R02.3', f'{q} :: also walks the superseded members ({coll})', walks,
@@ -353,6 +371,19 @@ def run(repo: Repo, chk: Check, thorough: bool = False) -> None:
         raise AnalysisError(f'R02.5: {n_ins} insertions into a contents table found (2 confirmed: System.addObject, Documentable.reparent)')
     chk.require('R02.5', 2)
     check_r02_6(repo, chk)
+
+
+def _iter_exprs(repo: Repo, f: Func, it: ast.AST) -> List[ast.AST]:
+    """The expressions a loop iterates: the iterable itself, the values of a local it names, the returned expressions of a helper method it calls."""
+    out: List[ast.AST] = [it]
+    if isinstance(it, ast.Name):
+        out += _values(f, it.id)
+    for c in [x for e in list(out) for x in ast.walk(e) if isinstance(x, ast.Call)]:
+        if isinstance(c.func, ast.Attribute) and isinstance(c.func.value, ast.Name):
+            for g in repo.funcs.values():
+                if g.mod is f.mod and g.name == c.func.attr and g.cls is not None:
+                    out += [r.value for r in g.walk() if isinstance(r, ast.Return) and r.value is not None]
+    return out
 
 
 def _values(f: Func, name: str) -> List[ast.AST]:
